@@ -19,3 +19,15 @@ def update(checks, pending):
         "Trusted: harness/ref codec; index files intact; CRC-32C collisions ignored.", "5/C14")
     for k in ("C07", "C14"):
         pending.pop(k, None)
+
+_prev2 = update
+def update(checks, pending):
+    _prev2(checks, pending)
+    checks["C05"] = ("crashmon", "fault_enumeration", "strace-recorded syscall traces replayed to every crash point (plus torn appends and depth-2 crash points inside recovery); real Open(Recover) judged against the marker-derived allowed set",
+        "Every enumerated crash image of every recorded workload recovered to an allowed log with agreeing views, monotone NextOffset, idempotent recovery and appendability (except the listed known finding).",
+        "Trusted: strace's record of syscalls (self-checked by replay == real directory), harness/fstrace replayer, crash model of the property.", "5/C05")
+    checks["C06"] = ("crashmon", "fault_enumeration", "strace-recorded fsync/write trace; synthesized tail-loss images (per-file cut between last fsynced and current length) recovered by the real code and judged against the Sync watermark",
+        "Every synthesized power-loss image recovered to a prefix of the acknowledged log containing everything below the watermark.",
+        "Trusted: strace's record of fsync calls, the property's durability model.", "5/C06")
+    for k in ("C05", "C06"):
+        pending.pop(k, None)
